@@ -97,6 +97,8 @@ def parse(path):
             cur_kind, cur_arg = d, None
         elif d in ('loop', 'pre', 'top', 'bot', 'post', 'closure'):
             cur_kind, cur_arg = d, int(rest)
+        elif d == 'type':
+            cur_kind, cur_arg = 'type', rest
         elif d in ('at', 'after-marker'):
             mm = re.match(r'^"(.*)"\s*(#(\d+))?$', rest)
             if not mm:
